@@ -10,7 +10,7 @@
 From MafVerif Require Import lib.Base lib.Str lib.SortOrderLib model.SortOrder model.OrderCheck
   model.WriterSort model.SortOrderDispatch spec.SpecOrder proofs.SortOrderFacts
   proofs.SortOrderCheckFacts proofs.SortOrderHeaderFacts proofs.SortOrderWriterFacts
-  proofs.SortOrderPrintFacts.
+  proofs.SortOrderPrintFacts proofs.SorterFacts proofs.SortOrderCompose.
 From Coq Require Import Sorted Permutation.
 
 (* sorting on: after close the handle holds the header lines, the column line
@@ -59,6 +59,55 @@ Theorem C10_sorting_writer_output_is_readable :
       reader_iter (wh_text h) (map view ys) = (map view ys, Ok tt).
 Proof. exact sorting_writer_from_lines. Qed.
 Print Assumptions C10_sorting_writer_output_is_readable.
+
+(* composed with C07 (the sorter's theorem, instantiated as the MafSorter of
+   model/Sorter.v with the MAF key order of C08): `sorter_contract` is no
+   longer a premise.  What remains is the codec contract (render then from_line
+   gives back a record with the same rendering, key and non-emptiness: C04's
+   side) and the contract of the host's sorted()/heapq; for every capacity
+   >= 1 and either spill policy. *)
+Theorem C10_sorting_writer_obeys_its_header_composed :
+  forall (R : Type) (view : R -> locatable) (render : R -> str) (dec : str -> res R)
+         (pick_min : forall X : Type, (X -> X -> bool) -> list X -> option (X * list X))
+         (c : nat) (al : bool),
+    (1 <= c)%nat -> pick_contract pick_min -> maf_codec_contract R view render dec ->
+    forall (rkeys : R -> list str) (validate : R -> res unit) (h : wheader) (rs : list R),
+    sortable h ->
+    Forall (fun r => validate r = Ok tt) rs ->
+    Forall (fun r => good (header_kf h) (view r)) rs ->
+    exists w ys,
+      writer_session R view render rkeys validate (maf_sorter_iter R view render dec pick_min c al)
+                     h false rs = (w, Ok tt) /\
+      w_closed R w = true /\
+      w_out R w = wh_text h ++ col_lines R rkeys h rs ++ map render ys /\
+      Permutation (map render ys) (map render rs) /\
+      StronglySorted (fun a b => rec_ltb (header_kf h) (view b) (view a) = false) ys /\
+      (header_coherent h -> reader_iter (wh_text h) (map view ys) = (map view ys, Ok tt)).
+Proof. exact sorting_writer_composed. Qed.
+Print Assumptions C10_sorting_writer_obeys_its_header_composed.
+
+(* ... and for a header built by MafHeader.from_lines, with no condition on the header left *)
+Theorem C10_sorting_writer_output_is_readable_composed :
+  forall (R : Type) (view : R -> locatable) (render : R -> str) (dec : str -> res R)
+         (pick_min : forall X : Type, (X -> X -> bool) -> list X -> option (X * list X))
+         (c : nat) (al : bool),
+    (1 <= c)%nat -> pick_contract pick_min -> maf_codec_contract R view render dec ->
+    forall (rkeys : R -> list str) (validate : R -> res unit)
+           (hl : list str) (scheme : option (list str)) (rs : list R),
+    let h := wheader_of_lines hl scheme in
+    sortable h ->
+    Forall (fun r => validate r = Ok tt) rs ->
+    Forall (fun r => good (header_kf h) (view r)) rs ->
+    exists w ys,
+      writer_session R view render rkeys validate (maf_sorter_iter R view render dec pick_min c al)
+                     h false rs = (w, Ok tt) /\
+      w_closed R w = true /\
+      w_out R w = wh_text h ++ col_lines R rkeys h rs ++ map render ys /\
+      Permutation (map render ys) (map render rs) /\
+      StronglySorted (fun a b => rec_ltb (header_kf h) (view b) (view a) = false) ys /\
+      reader_iter (wh_text h) (map view ys) = (map view ys, Ok tt).
+Proof. exact sorting_writer_composed_from_lines. Qed.
+Print Assumptions C10_sorting_writer_output_is_readable_composed.
 
 (* sorting off: records appear in exactly the order they were written *)
 Theorem C10_unsorted_writer_keeps_write_order :
@@ -114,3 +163,19 @@ Proof. vm_compute. repeat split; reflexivity. Qed.
 Example demo_records_good :
   Forall (fun r : wrec => good (header_kf demo_header) (fst r)) [rec_ chr10 1; rec_ chr2 1; rec_ chr1 5].
 Proof. repeat constructor; eexists; split; vm_compute; reflexivity. Qed.
+
+(* the premises of the composed theorem are satisfiable together: records that
+   are their own line (decode = identity), keyed by their text as chromosome
+   name, the left-most-minimum oracle of the sorter's extracted model, capacity
+   2 (two spill files for three records) *)
+From MafVerif Require Import model.Sorter.
+Definition toy_view (s : str) : locatable := Plain (PStr s) PNone PNone.
+Example demo_codec_contract : maf_codec_contract str toy_view (fun s => s) (fun s => Ok s).
+Proof. intros kf a k Hk. exists a. auto. Qed.
+Example demo_pick_contract : pick_contract leftmost_min.
+Proof. exact leftmost_min_contract. Qed.
+Example demo_composed_run :
+  maf_sorter_iter str toy_view (fun s => s) (fun s => Ok s) leftmost_min 2 true
+    (header_kf demo_header) [chr10; chr2; chr1; chr2]
+  = Ok [chr1; chr2; chr2; chr10].
+Proof. vm_compute. reflexivity. Qed.
